@@ -318,6 +318,10 @@ func (p *poolTracker) hook(ev string, n *idr.Node) {
 		p.puts++
 		if !p.owner[n] {
 			p.errs = append(p.errs, fmt.Sprintf("node %p put back twice / never handed out", n))
+			if len(p.errs) <= 3 { // reported at once: what follows a double release may well kill the process
+				violation("C12", "pool-ownership", p.errs[len(p.errs)-1], M{})
+				flush()
+			}
 		}
 		delete(p.owner, n)
 		p.pooled[n] = true
